@@ -1,7 +1,7 @@
 \* seeded random histories of depth 12 over the full alphabet
 CONSTANTS
     Depth = 12
-    Seeds = {"empty", "vp", "vv", "sur", "dyn", "dataia"}
+    Seeds = {"empty", "vp", "vv", "sur", "dyn", "dataia", "dangle"}
     OpSet = "all"
     EmitOn = TRUE
 INIT Init
